@@ -341,10 +341,14 @@ func (c *ClientConn) maybePrepareAndExecute(request Request, raw *frame.RawFrame
 	if msg, ok := frm.Body.Message.(*message.Unprepared); ok {
 		id := hex.EncodeToString(msg.Id)
 		if prepare, ok := c.preparedCache.Load(id); ok {
-			err = c.Send(&prepareRequest{
-				prepare:     prepare.PreparedFrame,
-				origRequest: request,
-			})
+			// The statement might have been prepared through a session that uses another protocol version
+			prepareFrame, err := withVersion(prepare.PreparedFrame, raw.Header.Version)
+			if err == nil {
+				err = c.Send(&prepareRequest{
+					prepare:     prepareFrame,
+					origRequest: request,
+				})
+			}
 			vhook("reprepare", c, request, err)
 			if err != nil {
 				c.logger.Error("failed to prepare query after receiving an unprepared error response",
@@ -384,12 +388,54 @@ func (c *ClientConn) maybeCachePrepared(request Request, raw *frame.RawFrame) {
 				zap.Stringer("response", msg))
 			return
 		}
+		// The prepared cache is shared by sessions with different settings, so the frame is kept uncompressed. That way it
+		// can be replayed on a connection of any of them.
+		prepareFrame, err := c.uncompressed(request.Frame().(*frame.RawFrame))
+		if err != nil {
+			c.logger.Error("failed to decode prepare request; unable to update prepared cache", zap.Error(err))
+			return
+		}
 		vhook("cache.store", c, msg.PreparedQueryId)
 		c.preparedCache.Store(hex.EncodeToString(msg.PreparedQueryId),
 			&PreparedEntry{
-				request.Frame().(*frame.RawFrame), // Store frame so we can re-prepare
+				prepareFrame, // Store frame so we can re-prepare
 			})
 	}
+}
+
+// uncompressed returns the frame itself if its body is not compressed; otherwise, a copy with the body decompressed.
+func (c *ClientConn) uncompressed(raw *frame.RawFrame) (*frame.RawFrame, error) {
+	if !raw.Header.Flags.Contains(primitive.HeaderFlagCompressed) {
+		return raw, nil
+	}
+	frm, err := c.getCodec().ConvertFromRawFrame(raw)
+	if err != nil {
+		return nil, err
+	}
+	hdr := *frm.Header
+	hdr.Flags = hdr.Flags.Remove(primitive.HeaderFlagCompressed)
+	return frame.NewRawCodec().ConvertToRawFrame(&frame.Frame{Header: &hdr, Body: frm.Body})
+}
+
+// withVersion returns the (uncompressed) prepare frame re-encoded for a connection using the given protocol version.
+func withVersion(raw *frame.RawFrame, version primitive.ProtocolVersion) (*frame.RawFrame, error) {
+	if raw.Header.Version == version {
+		return raw, nil
+	}
+	codec := frame.NewRawCodec()
+	frm, err := codec.ConvertFromRawFrame(raw)
+	if err != nil {
+		return nil, err
+	}
+	converted := frame.NewFrame(version, raw.Header.StreamId, frm.Body.Message)
+	converted.Body.CustomPayload = frm.Body.CustomPayload
+	if frm.Header.Flags.Contains(primitive.HeaderFlagTracing) {
+		converted.Header.Flags = converted.Header.Flags.Add(primitive.HeaderFlagTracing)
+	}
+	if frm.Body.CustomPayload != nil {
+		converted.Header.Flags = converted.Header.Flags.Add(primitive.HeaderFlagCustomPayload)
+	}
+	return codec.ConvertToRawFrame(converted)
 }
 
 func (c *ClientConn) Closing(err error) {
